@@ -69,6 +69,16 @@ def run(chk):
         s6.items = L(*pre6) + [('R', new, rules, 0)] + L("6 H", "-1 X b.svc 6_1 :OK", "-1 X a.svc 6_1 :OK c:2", "6 D")
         groups.append((svcs, rules, 0, [(5, s5), (6, s6)], (new, rules, 0, {5: len(pre5), 6: len(pre6)})))
         chk.hist("group:xreply_ok from a service dropped while another client awaits it (D24)")
+    # deterministic group: twelve clients, so that serials reach two hex digits (0xa, 0xb, 0xc) in the merged run while every
+    # client has serial 1 alone; tags are spelt in hex both ways
+    svcs12 = [('a.svc', 'login')]
+    mem12 = []
+    for cid in range(41, 53):
+        s12 = Scn(True, False, svcs12, [], 0, [], "solo client %d (one of twelve)" % cid)
+        s12.items = L("%d C 10.0.0.%d %d 10.1.1.1 6667" % (cid, cid, 4000 + cid), "%d N h%d.example.org" % (cid, cid), "%d u id%d" % (cid, cid), "%d P :+x acct%d pw" % (cid, cid),
+                      "-1 X a.svc %x_1 :OK acct%d" % (cid, cid), "%d n Nick%d" % (cid, cid), "%d U u%d :Real" % (cid, cid), "%d D" % cid)
+        mem12.append((cid, s12))
+    groups.append((svcs12, [], 0, mem12, None)); chk.hist("group:twelve clients (two-digit serials)")
     for g in range(ngroups):
         k = rng.choice([2, 2, 3, 4])
         svcs, rules = gen_tables(rng, dict(nsv=[1, 2, 3]))
